@@ -90,7 +90,7 @@ with refs_s (fuel:nat) (a:aenv) (l:list stmt) {struct fuel} : list ref :=
           let a' := match const_strings src with Some l => sset x l a | None => drop x end in
           (refs_e n a src ++ refs_s n a' body ++ refs_s n (drop x) rest)%list
       | SReturn e | SExpr e | SAssert e => (refs_e n a e ++ refs_s n a rest)%list
-      | SContinue => refs_s n a rest
+      | SContinue | SBreak => refs_s n a rest
       end
     end
   end.
